@@ -1,27 +1,28 @@
 CONSTANTS
-  MaxFrames = 14
+  MaxFrames = 16
   Dev_PruneWithoutReap = TRUE
   Dev_AfterSpawnKillDetached = TRUE
   Dev_BuiltinIgnoreList = TRUE
-  Configs <- mc_Configs
-  Requests <- mc_Requests
-  MaxReq = 1
+  Configs <- c01a_Configs
+  Requests <- c01_Requests
+  MaxReq = 2
   MaxDie = 1
   MaxExt = 0
   MaxFork = 0
   MaxSig = 0
-  MaxNow = 8
-  MaxPid = 4
-  DieStatuses <- mc_DieStatuses
-  ObeyChoices <- mc_ObeyChoices
-  FaultSeqs <- mc_FaultSeqs
+  MaxNow = 9
+  MaxPid = 6
+  DieStatuses <- st_exit
+  ObeyChoices <- both
+  FaultSeqs <- nofault
   Reduce = TRUE
   ReqUntil = 4
   DieUntil = 5
 INIT Init
 NEXT Next
 CONSTRAINT PidBound
-INVARIANT Inv_all
+INVARIANT AnyBad
+INVARIANT Inv_C10_mutex
 CHECK_DEADLOCK FALSE
 ALIAS Alias
 VIEW View
